@@ -372,6 +372,10 @@ def run(ctx):
     check_call_arguments(ctx, "C13.ARGS", "C13")
     from ..rules_common import check_effect_tables
     check_effect_tables(ctx, "C13")
+    # C13.LAZY - dateutil.parser is imported lazily into the module global `parser`
+    from ..rules_common import check_lazy_imports
+    n_lazy = check_lazy_imports(ctx, "C13.LAZY", "rrule")
+    ctx.floor("C13.LAZY", n_lazy, 3, "uses of the lazily imported parser module")
     from ..rules_common import check_presence_tests, ARG_SCOPE
     check_presence_tests(ctx, "C13.PRESENCE", classes=ARG_SCOPE.get("C13", []))
 
